@@ -155,7 +155,9 @@ def normalize_tests(tree):
             elif isinstance(n, ast.IfExp) and isinstance(n.test, ast.UnaryOp) and isinstance(n.test.op, ast.Not):
                 n.test = n.test.operand
                 n.body, n.orelse = n.orelse, n.body
-        elif isinstance(n, ast.comprehension):
+        if isinstance(n, ast.If) and n.orelse and all(isinstance(x, ast.Pass) for x in n.orelse):
+            n.orelse = []
+        if isinstance(n, ast.comprehension):
             n.ifs = [_norm_expr(x) for x in n.ifs]
         elif isinstance(n, ast.Assert):
             n.test = _norm_expr(n.test)
@@ -364,6 +366,79 @@ def _always_returns(block):
     if isinstance(last, ast.Try) and not last.finalbody:
         return _always_returns(last.body + last.orelse) and all(_always_returns(h.body) for h in last.handlers)
     return False
+
+
+def _genloop_ok(hnode, yld, forst):
+    """the generator helper can be read in place of `for T in helper(): BODY`: the yield is a statement of its own, and BODY
+    leaves the loop only in ways that mean the same in the helper's loop (no break; continue only when the yield is the last
+    statement of a loop body)"""
+    par = getattr(yld, 'parent', None)
+    if not isinstance(par, ast.Expr):
+        return False
+    holder = getattr(par, 'parent', None)
+    last_in_loop = isinstance(holder, (ast.For, ast.While)) and holder.body and holder.body[-1] is par
+
+    def escapes(stmts, kinds):
+        for x in stmts:
+            if isinstance(x, kinds):
+                return True
+            if isinstance(x, FUNC_TYPES + (ast.ClassDef, ast.For, ast.AsyncFor, ast.While)):
+                if isinstance(x, (ast.For, ast.AsyncFor, ast.While)) and escapes(x.orelse, kinds):
+                    return True
+                continue
+            for field in ('body', 'orelse', 'finalbody'):
+                if escapes(getattr(x, field, []) or [], kinds):
+                    return True
+            for hd in getattr(x, 'handlers', []):
+                if escapes(hd.body, kinds):
+                    return True
+        return False
+    if escapes(forst.body, (ast.Break,)):
+        return False
+    if escapes(forst.body, (ast.Continue,)) and not last_in_loop:
+        return False
+    if isinstance(forst.target, ast.Name) is False and not isinstance(forst.target, (ast.Tuple, ast.List)):
+        return False
+    return True
+
+
+def _returns_to_breaks(block, ost):
+    """a helper called for its effect only (`self._drain(q)` as a statement) whose last statement is a loop that is left by
+    plain `return`: inside that loop (not in a loop nested in it) `return` reads `break`.  None when the shape is another one."""
+    if not isinstance(ost, ast.Expr) or not block or not isinstance(block[-1], (ast.While, ast.For)) or block[-1].orelse:
+        return None
+    if _has_return(block[:-1]):
+        return None
+
+    class Fail(Exception):
+        pass
+
+    def tr(stmts):
+        out = []
+        for s in stmts:
+            if isinstance(s, ast.Return):
+                if s.value is not None and not (isinstance(s.value, ast.Constant) and s.value.value is None):
+                    raise Fail()
+                out.append(ast.copy_location(ast.Break(), s))
+                continue
+            if isinstance(s, FUNC_TYPES + (ast.ClassDef,)) or not _has_return([s]):
+                out.append(s)
+                continue
+            if isinstance(s, (ast.For, ast.AsyncFor, ast.While)) or (isinstance(s, ast.Try) and s.finalbody):
+                raise Fail()
+            for field in ('body', 'orelse'):
+                sub = getattr(s, field, None)
+                if isinstance(sub, list) and sub and isinstance(sub[0], ast.stmt):
+                    setattr(s, field, tr(sub))
+            for h in getattr(s, 'handlers', []):
+                h.body = tr(h.body)
+            out.append(s)
+        return out
+    try:
+        block[-1].body = tr(block[-1].body)
+    except Fail:
+        return None
+    return block
 
 
 def _once_block(block, ost):
@@ -612,8 +687,11 @@ class Model:
                             and len(st.targets[0].elts) == len(st.value.elts) and all(isinstance(t, ast.Name) for t in st.targets[0].elts) \
                             and not any(isinstance(v, ast.Starred) for v in st.value.elts):
                         tnames = [t.id for t in st.targets[0].elts]
-                        safe = all(not any(isinstance(x, ast.Name) and x.id in tnames and not (x is v and x.id == tnames[i])
-                                           for x in ast.walk(v)) for i, v in enumerate(st.value.elts))
+                        # read one after the other: an element may mention a target only if that target is not re-bound before it
+                        rebound = [t for t, v in zip(tnames, st.value.elts) if not (isinstance(v, ast.Name) and v.id == t)]
+                        safe = len(set(tnames)) == len(tnames) and \
+                            all(not any(isinstance(x, ast.Name) and x.id in rebound and tnames.index(x.id) < j for x in ast.walk(v))
+                                for j, v in enumerate(st.value.elts))
                         if safe:
                             for t, v in zip(st.targets[0].elts, st.value.elts):
                                 if isinstance(v, ast.Name) and v.id == t.id:
@@ -697,7 +775,7 @@ class Model:
             if owner is not fi.node:
                 continue
             h = self._helper_for(fi, call)
-            if h is None or not isinstance(h.node, ast.FunctionDef) or h.node.decorator_list:
+            if h is None or not isinstance(h.node, ast.FunctionDef) or {dotted(d) for d in h.node.decorator_list} - {'staticmethod'}:
                 continue
             body = [x for x in h.node.body if not (isinstance(x, ast.Expr) and isinstance(x.value, ast.Constant) and isinstance(x.value.value, str))]
             if len(body) != 1 or not isinstance(body[0], ast.Return) or body[0].value is None:
@@ -735,6 +813,9 @@ class Model:
                 # `if a and self._helper(...): B` (no else) as `if a:` + `_r = self._helper(...)` + `if _r: B`
                 call = st.test if isinstance(st.test, ast.Call) else st.test.values[-1]
                 sites.append((_IfCall(st, synthetic(call, st)), call))
+            if isinstance(st, ast.For) and isinstance(st.iter, ast.Call) and not st.orelse and not os.environ.get('VERIF_NO_GENINLINE'):
+                # `for x in self._items(...): BODY` over a generator helper with one yield
+                sites.append((st, st.iter))
             if isinstance(st, (ast.If, ast.Assign, ast.Return, ast.Expr)) and not os.environ.get('VERIF_NO_HOIST'):
                 # the helper call somewhere inside the statement's expression: hoisted in front of the statement
                 expr = st.test if isinstance(st, ast.If) else st.value
@@ -784,7 +865,14 @@ class Model:
             if modfunc is None and uses.get(f.attr, 0) > 1 and self._orig_size.get(h.qualname, 99) > MAX_SHARED_HELPER_STMTS:
                 continue    # a larger shared helper is a unit of its own (rules find it by role)
             rets = [n for n in walk_local(h.node) if isinstance(n, ast.Return)]
-            if any(isinstance(n, (ast.Yield, ast.YieldFrom)) for n in walk_local(h.node)):
+            ylds = [n for n in walk_local(h.node) if isinstance(n, (ast.Yield, ast.YieldFrom))]
+            if isinstance(st, ast.For):
+                if len(ylds) != 1 or not isinstance(ylds[0], ast.Yield) or ylds[0].value is None or rets or not _genloop_ok(h.node, ylds[0], st):
+                    continue
+                res.append((st, call, h, binding, body, 'gen'))
+                taken_stmts.add(id(st))
+                continue
+            if ylds:
                 continue
             if len(rets) > 1 or (rets and rets[0] is not body[-1]):
                 # early returns: `return self._helper()` keeps every return as it is; elsewhere the guard clauses are turned
@@ -808,6 +896,8 @@ class Model:
                     if isinstance(st, ast.Assign) and not _always_returns(body):
                         continue
                     body = _eliminate_returns(body, st)
+                    if body is None and once:
+                        body = _returns_to_breaks(_clone_ast(orig_body), st)
                     if body is None and once:
                         body = _once_block(_clone_ast(orig_body), st)
                     if body is None:
@@ -929,11 +1019,37 @@ class Model:
                     ast.fix_missing_locations(a)
                     emitted.append(a)
                 last = stmts[-1]
+                if pre == 'gen':
+                    loop_body = rewrite(st.body)
+
+                    def put(lst, st=st, loop_body=loop_body):
+                        out2 = []
+                        for x in lst:
+                            if isinstance(x, ast.Expr) and isinstance(x.value, ast.Yield):
+                                a = ast.Assign(targets=[st.target], value=x.value.value, type_comment=None)
+                                out2.append(ast.fix_missing_locations(ast.copy_location(a, x)))
+                                out2.extend(loop_body)
+                                continue
+                            for field in ('body', 'orelse', 'finalbody'):
+                                sub = getattr(x, field, None)
+                                if isinstance(sub, list) and sub and isinstance(sub[0], ast.stmt) and not isinstance(x, FUNC_TYPES + (ast.ClassDef,)):
+                                    setattr(x, field, put(sub))
+                            for hd in getattr(x, 'handlers', []):
+                                hd.body = put(hd.body)
+                            out2.append(x)
+                        return out2
+                    emitted.extend(put(stmts))
+                    self.inlined.setdefault(fi.qualname, []).append(helper.qualname)
+                    out.extend(emitted)
+                    continue
                 if pre:
                     pass        # returns were dealt with by _eliminate_returns (or are kept: `return self._helper()`)
                 elif isinstance(last, ast.Return):
                     val = last.value if last.value is not None else ast.copy_location(ast.Constant(value=None), last)
-                    if isinstance(ost, ast.Assign):
+                    if isinstance(ost, ast.Assign) and len(ost.targets) == 1 and isinstance(ost.targets[0], ast.Name) and isinstance(val, ast.Name) \
+                            and val.id == ost.targets[0].id:
+                        rep = ast.Pass()        # `x = helper()` with `return x` in the helper: nothing to re-bind
+                    elif isinstance(ost, ast.Assign):
                         rep = ast.Assign(targets=[clone(t) for t in ost.targets], value=val, type_comment=None)
                     elif isinstance(ost, ast.Return):
                         rep = ast.Return(value=val)
@@ -993,6 +1109,8 @@ class Model:
             return out
 
         new_root.body = rewrite(new_root.body)
+        if not os.environ.get('VERIF_NO_NORMALIZE'):
+            normalize_tests(new_root)       # guard clauses of expanded helpers read like the rest
         set_parents(new_root)
         new_root.parent = getattr(fi.node, 'parent', None)
         new_root.finfo = fi
